@@ -246,5 +246,38 @@ class C15(Prop):
                     "expected": want[:500], "observed": got[:500]}
         return None
 
+    def extra_checks(self, rng, tier, ev):
+        """Known finding `fixed-point-53-bits` (G3 of the second review): the property quantifies over every multiple of
+        2^-32 in range for the 32.32 fixed-point types, but the encoder multiplies by a float scale and the decoder returns
+        floats, so a value with more than 53 significant bits (only expressible as a `Fraction`, not as a float) does not
+        round-trip.  The theorems carry `floatExact`; this runs the excluded point on the real code on every run."""
+        from fractions import Fraction
+        from nxslib.dev import Device, DeviceChannel
+        from nxslib.proto.iparse import DParseStreamData
+        from nxslib.proto.parse import Parser
+        from nxslib.proto.parserecv import ParseRecv
+        from nxslib.proto.serialframe import SerialFrame
+        out = []
+        tried = 0
+        for ty, raw in ((16, 2 ** 53 + 1), (17, -(2 ** 53 + 1))):      # UB32, B32
+            x = Fraction(raw, 2 ** 32)
+            try:
+                pr = ParseRecv(None)
+                frame = pr.frame_stream_encode([DParseStreamData(chan=0, dtype=ty, vdim=1, mlen=0, data=(x,), meta=())])
+                dev = Device(1, 3, 0, [DeviceChannel(0, ty, 1, "c")])
+                dec = SerialFrame().frame_decode(frame)
+                got = Parser().frame_stream_decode(dec, dev).samples[0].data[0]
+                tried += 1
+                if Fraction(got) != x:
+                    out.append({"key": "fixed-point-53-bits", "case": f"type {ty} value {raw}/2^32 given as a Fraction",
+                                "what": "a 32.32 fixed-point value with more than 53 significant bits does not round-trip "
+                                        "(float scale in the encoder, float result in the decoder)",
+                                "expected": str(x), "observed": repr(got)})
+            except Exception as e:  # noqa: BLE001
+                out.append({"key": "fixed-point-53-bits", "case": f"type {ty} value {raw}/2^32 given as a Fraction",
+                            "what": f"encoding / decoding raised {type(e).__name__}: {e}", "expected": str(x), "observed": type(e).__name__})
+        ev["coverage"]["fraction_points_tried"] = tried
+        return out[:1]
+
 
 PROP = C15()
